@@ -175,6 +175,17 @@ class SimBase:
     def _log_message(self, sid, data):
         i = self.nevent
         self.nevent += 1
+        if self.cfg.get('mutate_payloads') and isinstance(data, (dict, list)):
+            # an application that changes the object it is handed (the log
+            # keeps what it was handed)
+            import copy
+            given = copy.deepcopy(data)
+            if isinstance(data, dict):
+                data['seen-by-handler'] = True
+                data.pop('op', None)
+            else:
+                data.append('seen-by-handler')
+            data = given
         self.events.append({'clk': self.tick(), 't': self.now, 'ev': 'message',
                             'sid': sid, 'data': data})
         if self.on_event:
